@@ -105,6 +105,7 @@ func init() {
 		Prepare: prepareAll,
 		Extra:   func(c *CheckCtx) error { return conformInput(c, nil) },
 		Select: []Selector{
+			{Units: `ebnf/lexer\.New$`},
 			{Units: `ebnf/lexer\.Lexer\.NextToken$`, Kinds: `^(post|inv-init|inv-pres|pre|term|vacuity)$`},
 			{Units: `ebnf/lexer\.Lexer\.evalDFA$`, Names: `#(post\[(0|2|3)\]|vacuity)`},
 			{Units: `ebnf/lexer\.advanceDFA$`, Kinds: `^(post|vacuity)$`},
